@@ -394,12 +394,44 @@ class Run:
         The key is thus at least as fine as the Heap's behaviour."""
         h = self.heap
         live = tuple(sorted(map(norm, self.live)))
-        alloc = tuple(sorted(map(norm, h._allocated_blocks)))
-        return (h._size, tuple(a.size for a in self.arenas), live,
-                tuple((n, tuple(map(norm, seq)))
-                      for n, seq in sorted(h._len_to_seq.items())),
-                None if alloc == live else alloc,
-                tuple(map(norm, h._pending_free_blocks)))
+        # name-independent: every attribute of the Heap object, with arenas
+        # named by creation order (a private attribute that is renamed or
+        # added by a refactoring is picked up by itself); unordered
+        # containers sorted, ordered ones kept in order
+        return (live, tuple(a.size for a in self.arenas), _canon_obj(h))
+
+
+def _canon_val(v, depth=0):
+    if isinstance(v, FakeArena):
+        return ('A', v.index)
+    if v is None or isinstance(v, (bool, int, float, str, bytes)):
+        return v
+    if isinstance(v, (tuple, list, collections.deque)):
+        return ('seq',) + tuple(_canon_val(x, depth + 1) for x in v)
+    if isinstance(v, (set, frozenset)):
+        return ('set',) + tuple(sorted((_canon_val(x, depth + 1) for x in v),
+                                       key=repr))
+    if isinstance(v, dict):
+        return ('map',) + tuple(sorted(
+            ((_canon_val(k, depth + 1), _canon_val(x, depth + 1))
+             for k, x in v.items()), key=repr))
+    return ('obj', type(v).__name__)          # locks and the like
+
+
+def _canon_obj(h):
+    out = []
+    for name in sorted(vars(h)):
+        v = vars(h)[name]
+        if isinstance(v, int) and not isinstance(v, bool) and \
+                v == _PID_OF_THIS_PROCESS():
+            continue                           # the owner pid (fork check)
+        out.append((name, _canon_val(v)))
+    return tuple(out)
+
+
+def _PID_OF_THIS_PROCESS():
+    import os
+    return os.getpid()
 
 
 def progress(*a):
